@@ -55,6 +55,7 @@ type EmulOpts struct {
 	NoCerts   bool
 	ExtraAttr int // bits: 1 an unknown attribute with a SEQUENCE value, 2 signingCertificateV2-like, 4 id-aa-msgSigDigest (signed receipt), 8 id-aa-contentHint, 16 id-aa-securityLabel
 	Time      time.Time
+	NoTime    bool // openssl cms -no_signing_time: no signingTime attribute
 	Sorted    bool // attributes in DER SET OF order (what OpenSSL emits)
 	// beyond the SHA-256-with-signed-attributes profile (valid CMS, but not what C04 allows to verify and C16 speaks of):
 	Hash    crypto.Hash // -md sha384 / sha512 / sha1: digest algorithm, messageDigest and signature all use it (0 = SHA-256)
@@ -86,6 +87,9 @@ func Emulate(id gen.Identity, content []byte, o EmulOpts) ([]byte, error) {
 		cms.Attr(cms.OIDContentType, der.OID(ctype...)),
 		cms.Attr(cms.OIDSigningTime, UTCTime(o.Time)),
 		cms.Attr(cms.OIDMessageDigest, der.Octets(md)),
+	}
+	if o.NoTime {
+		attrs = []*der.Node{attrs[0], attrs[2]}
 	}
 	if o.SMIMECaps {
 		attrs = append(attrs, cms.Attr(cms.OIDSMIMECaps, smimeCaps()))
